@@ -184,6 +184,22 @@ def gen_cases(ctx):
         arr = list(range(rng.randint(1, 25)))
         rng.shuffle(arr)
         cases.append({"kind": "sens_sorted", "arrivals": arr})
+    # real Sensitivity.run() with a permuted completion order
+    for _ in range(8 if not thorough else 40):
+        d = rng.choice([1, 2, 2, 3])
+        cap = {1: 8, 2: 4, 3: 3}[d]
+        as_tuple = rng.random() < 0.7
+        ns_ = [rng.randint(1, cap) for _ in range(d)] if as_tuple else [rng.randint(1, cap)] * d
+        total = 1
+        for n_ in ns_:
+            total *= n_
+        order = list(range(total))
+        rng.shuffle(order)
+        pri = []
+        for _ in range(d):
+            lo = float(rng.randint(-4, 4))
+            pri.append([lo.hex(), (lo + rng.choice([1.0, 2.0, 4.0, 8.0])).hex()])
+        cases.append({"kind": "sens_run", "ns": ns_, "as_tuple": as_tuple, "order": order, "priors": pri})
     return cases
 
 
@@ -299,6 +315,43 @@ def oracle(c, r):
             return "sensitivity lattice has %d points for steps %s" % (len(r["lists"]), c["ns"])
         if r["shape"] != c["ns"]:
             return "sensitivity shape %s for steps %s" % (r["shape"], c["ns"])
+        L = [[unhex(x) for x in row] for row in r["lists"]]
+        for i, n in enumerate(c["ns"]):
+            col = sorted(set(row[i] for row in L))
+            if len(col) != n:
+                return "sensitivity dimension %d has %d distinct centres for %d steps" % (i, len(col), n)
+            if any(not close(v, (j + 0.5) / n) for j, v in enumerate(col)):
+                return "sensitivity centres of dimension %d are not the cell centres" % i
+        for idx, row in enumerate(L):
+            rem = idx
+            for i in range(len(c["ns"]) - 1, -1, -1):
+                n = c["ns"][i]
+                if not close(row[i], (rem % n + 0.5) / n):
+                    return "sensitivity entry %d is not in row-major order" % idx
+                rem //= n
+        return None
+    if k == "sens_run":
+        ns = c["ns"]
+        tot = 1
+        for n in ns:
+            tot *= n
+        if r["shape"] != ns or r["n"] != tot or r["n_perturb"] != tot:
+            return "sensitivity result has shape %s and %d entries for steps %s" % (r["shape"], r["n"], ns)
+        pri = [(unhex(a), unhex(b)) for a, b in c["priors"]]
+        for idx, cell in enumerate(r["cells"]):
+            rem = idx
+            for i in range(len(ns) - 1, -1, -1):
+                n = ns[i]
+                j = rem % n
+                rem //= n
+                lo, hi = pri[i]
+                exp = (lo + (j / n) * (hi - lo), lo + ((j + 1) / n) * (hi - lo))
+                got = (unhex(cell[i][0]), unhex(cell[i][1]))
+                if not (close(got[0], exp[0]) and close(got[1], exp[1])):
+                    return ("entry %d of the sensitivity result was fitted on %r in dimension %d, but cell %d is %r "
+                            "(completion order %s)" % (idx, got, i, idx, exp, c["order"]))
+        if sorted(r["csv_index"]) != list(range(tot)):
+            return "results.csv does not list every cell once"
         return None
     if k == "sens_sorted":
         return None if r["numbers"] == sorted(c["arrivals"]) else "sensitivity results not sorted by number"
@@ -337,6 +390,20 @@ def coq_case(c, r):
         return "CSensLists %s %s %s" % (clist([cZ(n) for n in c["ns"]]), cfl(r["lists"]), clist([cZ(x) for x in r["shape"]]))
     if k == "sens_sorted":
         return "CSensSorted %s %s" % (clist([cZ(x) for x in c["arrivals"]]), clist([cZ(x) for x in r["numbers"]]))
+    if k == "sens_run":
+        # identify the cell each result entry was fitted on (by its limits), then compare the
+        # order with the model's sorted collection of the arrivals
+        ns = c["ns"]
+        pri = [(unhex(a), unhex(b)) for a, b in c["priors"]]
+        numbers = []
+        for cell in r["cells"]:
+            num = 0
+            for i, n in enumerate(ns):
+                lo, hi = pri[i]
+                j = int(round((unhex(cell[i][0]) - lo) / (hi - lo) * n))
+                num = num * n + j
+            numbers.append(num)
+        return "CSensSorted %s %s" % (clist([cZ(x) for x in c["order"]]), clist([cZ(x) for x in numbers]))
     return None
 
 
@@ -354,6 +421,8 @@ def nontrivial(c):
         return max(c["ns"]) >= 2
     if k == "sens_sorted":
         return c["arrivals"] != sorted(c["arrivals"])
+    if k == "sens_run":
+        return c["order"] != sorted(c["order"])
     return False
 
 
